@@ -133,6 +133,8 @@ def desc_space(s, with_cache):
          "spaces": {n: desc_space(c, with_cache) for n, c in s.spaces.items()},
          "spaces_order": list(s.spaces.keys()),
          "items": desc_items(s, with_cache)}
+    if with_cache:
+        d["n_items"] = len(s._named_itemspaces)
     return d
 
 
